@@ -160,5 +160,10 @@ Proof.
   rewrite (mapping_of_map _ Hndp). rewrite (Permutation_length Hp). unfold node_ids. rewrite map_length. apply Permutation_refl.
 Qed.
 
+(* non-vacuity: C-O=C, two carbons with tied node keys told apart by the bond orders; the canonical ids are 1..3 *)
+Example ex_nauty_ids : node_ids (canon_nauty ex_g) = [1%N; 3%N; 2%N] /\ NoDup (node_ids ex_g)
+                       /\ length (snd (nauty_acc ex_g)) = 1.
+Proof. split; [vm_compute; reflexivity|]. split; [repeat constructor; simpl; intuition discriminate|vm_compute; reflexivity]. Qed.
+
 Print Assumptions faithful_nauty.
 Print Assumptions onto_nauty.
